@@ -21,6 +21,7 @@ import (
 	"sort"
 	"strings"
 	"sync"
+	"syscall"
 	"time"
 
 	"verif/engine/evid"
@@ -118,6 +119,12 @@ func (p *parent) fold(st *batchStats) {
 
 var fatalLine = regexp.MustCompile(`(?m)^(panic: .*|fatal error: .*|runtime: goroutine stack exceeds.*|unexpected fault address.*|SIGSEGV.*|signal: killed)$`)
 
+// killedFromOutside: the child ended by SIGKILL and its output carries no fatal line of the Go
+// runtime (which never kills itself with SIGKILL).
+func killedFromOutside(res evid.ChildResult) bool {
+	return !res.TimedOut && res.Signal == syscall.SIGKILL && fatalLine.Find(res.Out) == nil
+}
+
 func classifyDeath(out []byte, res evid.ChildResult) (kind, class string) {
 	m := fatalLine.Find(out)
 	switch {
@@ -200,6 +207,7 @@ func (p *parent) runBatch(j job) {
 	r := p.r
 	from, end := j.From, j.From+j.N
 	deaths := 0
+	lastKillIdx, killsAtIdx, outsideKills := -1, 0, 0
 	for from < end {
 		// Enough witnesses: a tree that already produced ten violations is not explored further
 		// (inputs that blow up memory or time make every further batch slower for no new verdict).
@@ -284,6 +292,25 @@ func (p *parent) runBatch(j job) {
 			}
 			from = hangIdx + 1
 		default:
+			// Killed from outside (see killedFromOutside): run the rest of the batch again, the
+			// same input first; three such kills in a row at one input are reported.
+			if killedFromOutside(res) {
+				p.r.Count("children_killed_from_outside_and_rerun", 1)
+				idx, _, ok := readProgress(progressPath(p.scratch, j.Target, j.Batch))
+				if ok && idx >= from {
+					if idx == lastKillIdx {
+						killsAtIdx++
+					} else {
+						lastKillIdx, killsAtIdx = idx, 1
+					}
+					if killsAtIdx < 3 {
+						from = idx
+						continue
+					}
+				} else if outsideKills++; outsideKills < 3 {
+					continue
+				}
+			}
 			// The child died: attribute to the input it announced before dying.
 			deaths++
 			p.note(j.Target, func(a *targetAgg) { a.Fatal++ })
